@@ -71,7 +71,9 @@ POS, MEMBERS, FIRST, LAST, AREA = sp.symbols("POS MEMBERS FIRSTMEMBER LASTMEMBER
 XALL, YALL, WALL = symx.symbols("XALL", "YALL", "WALL")     # the object's arrays
 X, Y, W = symx.symbols("X", "Y", "W")                       # ... restricted to the members of the generic bin
 HIST, LOW, HIGH, REV, WSORT, SORTIDX = sp.symbols("HIST LOW HIGH REV WSORT SORT_INDEX")
-NPB = sp.Symbol("nperbin", positive=True)
+# the option nperbin: the property quantifies over the integers 1..N (a requested NUMBER of data per bin)
+NPB = sp.Symbol("nperbin", positive=True, integer=True)
+_NPB0 = sp.Symbol("nperbin_minus_1", nonnegative=True, integer=True)
 DMIN, DMAX, BINSIZE = symx.symbols("dmin", "dmax", "binsize")
 XP = "{xpref}"                                              # stands for the (unknown) prefix string self.xpref
 HPOS = sp.Symbol("h", positive=True, integer=True)
@@ -120,7 +122,7 @@ def _decide(c, scen):
     if c is True or c is False:
         return c
     try:
-        r = sp.sympify(c).subs(scen)
+        r = _nidx(sp.sympify(c)).subs(scen)
         if r not in (sp.true, sp.false):
             r = sp.simplify(r)
     except Exception:
@@ -130,6 +132,44 @@ def _decide(c, scen):
     if r == sp.false:
         return False
     return None
+
+
+_TYPES_ANY_INTEGER = {"numbers.Integral", "numbers.Rational", "numbers.Real", "numbers.Complex", "numbers.Number"}   # abstract: int and numpy integers
+_TYPES_PY_INT = {"int"}
+_TYPES_NUMPY_INT = {"numpy.integer", "numpy.number", "numpy.generic"}
+
+
+def _not_followed(*terms):
+    """one of the terms contains a value the evaluator did not follow (symx writes those as symbols OPAQUE...): a comparison with it
+    that fails says nothing about the code"""
+    for t in terms:
+        if isinstance(t, symx.Opaque):
+            return True
+        if isinstance(t, sp.Basic) and any(str(x).startswith("OPAQUE") for x in t.free_symbols):
+            return True
+    return False
+
+
+def _eq3(a, b):
+    """True: equal terms; False: both followed and different; None: not equal and one of them was not followed"""
+    if _eq(a, b):
+        return True
+    return None if _not_followed(a, b) else False
+
+
+def _in_domain(c):
+    """truth of a test on the options alone for EVERY option value the property quantifies over (nperbin = 1, 2, 3, ...); None when
+    it depends on anything else or on which value of the domain is taken.  A test that is decided this way is not a case the rules
+    have to split on: `if nperbin < 1: raise ...`, `if nperbin <= 0 or nperbin != int(nperbin): ...`, `if not nperbin >= 1:` only
+    turn away values outside the domain (argument validation), whatever the comparison is spelled like."""
+    if c is True or c is False:
+        return c
+    if not isinstance(c, sp.Basic) or not c.free_symbols or not c.free_symbols <= {NPB}:
+        return None
+    try:
+        return _decide(_nidx(c).subs(NPB, _NPB0 + 1), {})
+    except Exception:
+        return None
 
 
 class Undecided(Exception):
@@ -750,6 +790,41 @@ class BEnv(symx.Env):
     def bs(self):
         return self.se.bs
 
+    # ---- tests ----------------------------------------------------------------------------------------------------------------
+    def _option_type_test(self, t):
+        """`isinstance(E, T)` where E is an option of the property's domain (the integer nperbin, possibly coerced with int()): True
+        when T admits every integer the caller can pass (Python int AND numpy integers); None otherwise (not decided here)"""
+        if not (isinstance(t, ast.Call) and isinstance(t.func, ast.Name) and t.func.id == "isinstance" and "isinstance" not in self.vars
+                and len(t.args) == 2 and not t.keywords):
+            return None
+        try:
+            v = self.ev(t.args[0])
+        except symx.Unsupported:
+            return None
+        if not (isinstance(v, sp.Basic) and _nidx(v) == NPB):
+            return None
+        names = set()
+        for x in (t.args[1].elts if isinstance(t.args[1], ast.Tuple) else [t.args[1]]):
+            d = dotted_name(x)
+            if not d or d.split(".")[0] in self.vars:
+                return None
+            names.add(self.se.repo.resolve_name(self.mod, d))
+        if names & _TYPES_ANY_INTEGER or (names & _TYPES_PY_INT and names & _TYPES_NUMPY_INT):
+            return True
+        return None
+
+    def truth(self, t):
+        """a test that has one truth value over the whole domain of the options is that truth value (see _in_domain)"""
+        r = self._option_type_test(t)
+        if r is not None:
+            return r
+        r = symx.Env.truth(self, t)
+        if isinstance(r, sp.Basic) and r not in (sp.true, sp.false):
+            d = _in_domain(r)
+            if d is not None:
+                return d
+        return r
+
     # ---- statements -----------------------------------------------------------------------------------------------------------
     def exec_body(self, stmts, cond):
         rets = []
@@ -1046,7 +1121,10 @@ class BEnv(symx.Env):
             typ = self._namedtuple_type(e)
             if typ is not None:
                 return typ
-        return symx.Env.ev(self, e, stmt_level)
+        r = symx.Env.ev(self, e, stmt_level)
+        if isinstance(r, sp.Basic) and r.func == INT and len(r.args) == 1 and r.args[0].is_integer:
+            return r.args[0]         # int(k) / np.int64(k) of an integer k (the option nperbin, a size, a count) is k
+        return r
 
     def subscript(self, base, idx, e):
         if isinstance(base, RevObj):
@@ -2432,7 +2510,7 @@ def _equal_occupancy_direct(chk, repo, fi, ms):
             continue
         ok = _eqd(bc["m"], SIZE(WSORT))
         pairs.append((ok, "" if ok else "%s ranks are binned, expected all %s selected data" % (bc["m"], SIZE(WSORT))))
-        ok = _eqd(bc["d"], NPB)
+        ok = _eqd(bc["d"], NPB) or (None if _not_followed(bc["d"]) else False)
         pairs.append((ok, "" if ok else "rank r goes to bin int(r/%s), expected int(r/nperbin)" % (bc["d"],)))
         pairs.append((bc["len"], bc["lenmsg"]))
         f, why = finals[case]
@@ -2531,8 +2609,8 @@ def _equal_occupancy_direct(chk, repo, fi, ms):
             continue
         for state in [r.sd] + [m[1] for m in r.bs.merges]:
             h, v, npb = state.get("hist"), state.get("rev"), state.get("nperbin")
-            ok = isinstance(h, DV) and isinstance(v, DV) and isinstance(npb, sp.Basic) and npb == NPB
-            pairs.append((bool(ok), "" if ok else "hist=%r rev=%r nperbin=%r" % (h, v, npb)))
+            ok = isinstance(h, DV) and isinstance(v, DV) and isinstance(npb, sp.Basic) and _eq(npb, NPB)
+            pairs.append((None if (not ok and _not_followed(h, v, npb)) else bool(ok), "" if ok else "hist=%r rev=%r nperbin=%r" % (h, v, npb)))
     chk.ob("R14.5", "_hist_by_num::results-stored", _verdict([p[0] for p in pairs]), where,
            "hist / rev / nperbin are stored, before a merge reads them (%s)" % (first_msg(pairs) or "as found"))
 
@@ -2565,15 +2643,16 @@ def equal_occupancy(chk, repo):
                 res.append(None)
                 msg = msg or "%s not followed (%r)" % (p, g)
             else:
-                res.append(_eq(g, w))
-                if not _eq(g, w):
-                    msg = "%s is %s, expected %s" % (p, g, w)
+                ok = _eq3(g, w)
+                res.append(ok)
+                if not ok:
+                    msg = ("%s is %s, expected %s" if ok is False else "%s not followed (%s), expected %s") % (p, g, w)
         g = bind.get("nbin")
         if not symx._is_expr(g):
             res.append(None)
             msg = msg or "nbin not followed (%r)" % (g,)
         else:
-            okn = _eq(g, sp.floor((n - 1) / NPB) + 1) or _eq(g, sp.ceiling(n / NPB))
+            okn = (_eq(g, sp.floor((n - 1) / NPB) + 1) or _eq(g, sp.ceiling(n / NPB))) or (None if _not_followed(g) else False)
             res.append(okn)
             if not okn:
                 msg = "nbin is %s" % (g,)
@@ -2596,7 +2675,7 @@ def equal_occupancy(chk, repo):
             res.append(None)
             msg = msg or "the stores into the reverse indices were not recognised"
         else:
-            ok = _eq(rv.area, AT(WSORT, POS))
+            ok = _eq3(rv.area, AT(WSORT, POS))
             res.append(ok)
             if not ok:
                 msg = "the index area holds %s for the engine's position POS" % (rv.area,)
@@ -2619,7 +2698,7 @@ def equal_occupancy(chk, repo):
             try:
                 got = a.value(nonempty)
                 want = AT(XALL, AT(WSORT, sel))
-                ok = _eq(got, want)
+                ok = _eq3(got, want)
                 res.append(ok)
                 if not ok:
                     msg = "%s of a non-empty bin is %s, expected %s" % (q, got, want)
@@ -2666,8 +2745,9 @@ def equal_occupancy(chk, repo):
         rv = r.bs.do_hist[0][2]
         for state in [r.sd] + [m[1] for m in r.bs.merges]:
             h, v, npb = state.get("hist"), state.get("rev"), state.get("nperbin")
-            ok = isinstance(h, sp.Basic) and h == HIST and v is rv and isinstance(npb, sp.Basic) and npb == NPB
-            res.append(bool(ok))
+            ok = isinstance(h, sp.Basic) and h == HIST and v is rv and isinstance(npb, sp.Basic) and _eq(npb, NPB)
+            # a value the evaluator did not follow is not a wrong value
+            res.append(None if (not ok and _not_followed(h, v, npb)) else bool(ok))
             if not ok:
                 msg = "hist=%r rev=%r nperbin=%r" % (h, v, npb)
     chk.ob("R14.5", "_hist_by_num::results-stored", _verdict(res), where, "hist / rev / nperbin are stored, before a merge reads them (%s)" % (msg or "as found"))
